@@ -47,7 +47,7 @@ def render(n):
     if k == "sort":
         return "µ " + render_body(n[1]) + " ;"
     if k == "fdef":
-        return "@" + n[1] + "".join(":" + p for p in n[2]) + " | " + render_body(n[3]) + " ;"
+        return "@" + n[1] + "".join(":" + p for p in n[2]) + "| " + render_body(n[3]) + " ;"
     if k == "fcall":
         return "@" + n[1] + ";"
     if k == "mod":
